@@ -45,6 +45,26 @@ ROOTS = [
 ]
 
 
+# positions the nodes_() walk (hence tables_ / fields_()) does not reach, although replace_table must: the table to replace
+# occurs ONLY there, everything around it refers to other tables — a short-cut that asks tables_ first goes wrong
+HIDERS = ["(-{h})", "VW({h})", "ExistsCriterion(Query.from_(C).select(C.a).where(C.a == {h}))", "an.Rank().over({h})",
+          "an.Sum(C.a).over(C.b).orderby({h})", "fn.Count(C.a).filter({h} > 1)", "fn.Extract('year', {h})",
+          "terms.AtTimezone({f}, 'UTC')", "terms.Values({f})", "C.a.isin(Query.from_(E).select(E.x).where(E.x == {h}))"]
+CARRIERS = ["Case().when(C.a == 1, {t}).else_(C.b)", "Case().when(C.a == 1, C.b).else_({t})", "Case().when({t} == 1, C.b)",
+            "Tuple(C.a, {t})", "Array({t}, C.b)", "fn.Coalesce(C.a, {t})", "(C.a == {t})", "(C.a + {t})", "({t} * C.b)",
+            "C.a.isin([{t}, 1])", "C.a.between({t}, 5)", "(~(C.a > {t}))", "((C.a == 1) & (C.b > {t}))", "{t}.isnull()",
+            "fn.Sum(C.a).filter(C.b > {t})", "an.Rank().over(C.a).orderby({t})", "terms.All({t})", "C.a.bitwiseand({t})",
+            "fn.Cast({t}, 'INT')", "terms.NestedCriterion(terms.Equality.eq, terms.Boolean.and_, C.a, {t}, C.b)", "{t}"]
+
+
+def hidden_src(rng):
+    # AT TIME ZONE / VALUES() take a column (or its name), the others any term
+    t = rng.choice(HIDERS).format(h=rng.choice(["A.a", "A.b", "(A.a + 1)"]), f=rng.choice(["A.a", "A.b"]))
+    for _ in range(rng.choice([1, 1, 2])):
+        t = rng.choice(CARRIERS).format(t=t)
+    return t
+
+
 def term_src(rng, d):
     def leaf():
         return rng.choice(["A.a", "A.b", "A.c", "C.a", "C.b", "E.x", "F('free')", "A.a", "A.star" if False else "A.d"])
@@ -149,7 +169,16 @@ def generate(rng, n, tier):
             yield {"kind": "query", "src": src, "A": tabdef, "feat": None, "cls": cls}
     for i in range(n):
         tabdef = rng.choice(["T('ta')", "T('ta')", "T('ta', schema='s')", "T('ta').as_('ax')"])
-        if i % 2 == 0:
+        if i % 8 == 0:
+            h = hidden_src(rng)
+            if rng.random() < 0.4:
+                cls = rng.choice(list(QNAMES))
+                q = rng.choice(["{Q}.from_(C).select({t})", "{Q}.from_(C).select(C.a).where({t} == 1)", "{Q}.from_(C).select(C.a).orderby({t})",
+                                "{Q}.from_(C).select(C.a).groupby({t})", "{Q}.update(C).set(C.a, {t})"]).replace("{Q}", QNAMES[cls]).replace("{t}", h)
+                yield {"kind": "query", "src": q, "A": tabdef, "feat": "set-value-term" if ".set(" in q else None, "cls": cls}
+            else:
+                yield {"kind": "term", "src": h, "A": tabdef, "feat": None}
+        elif i % 2 == 0:
             yield {"kind": "term", "src": term_src(rng, rng.choice([1, 2, 2, 3, 4])), "A": tabdef, "feat": None}
         else:
             cls = rng.choice(list(QNAMES))
